@@ -69,7 +69,7 @@ func StageBMinPerConfig(cfgID string) map[string]int {
 }
 
 // measured on the unchanged tree: pre 547 (u64) / 552 (u32), reach 359 / 360,
-// complete 151 + 1 (encapsulation), control 1
+// complete 151 + 2 (encapsulation, dynamic calls), control 1
 var stageBPreMin, stageBReachMin, stageBCompleteMin = 490, 320, 136
 
 // DeclareStageBRules declares the Stage B rules with thresholds summed over
@@ -229,19 +229,28 @@ func CheckFieldStageB(run *report.Run, p *load.Program, rulePrefix string) {
 
 	// report the pre-condition obligations, grouped per call site
 	ruPre := rules.Rule(ClsPre)
-	sampled := 0
 	for _, o := range sb.preList {
 		if o.Failed() {
 			ruPre.Fail(o.Pos, o.Func, fmt.Sprintf("%s: `%s`: %s (first reached from %s)", o.Pos, o.Expr, o.Fails[0], o.Entry), o.Summary())
 			continue
 		}
 		ruPre.OK(o.Pos + " " + o.Expr + " " + o.What)
-		if sampled < 4 && o.Itv != nil && o.Itv.Hi.Cmp(be.D[0]) > 0 {
-			s := o.Summary()
-			s["config"] = p.Cfg.ID
-			run.Sample(s)
-			sampled++
+	}
+	// samples: the call sites that come closest to the headroom
+	byHi := append([]*Obligation(nil), sb.preList...)
+	sort.SliceStable(byHi, func(i, j int) bool {
+		if byHi[i].Itv == nil || byHi[j].Itv == nil {
+			return byHi[j].Itv == nil && byHi[i].Itv != nil
 		}
+		return byHi[i].Itv.Hi.Cmp(byHi[j].Itv.Hi) > 0
+	})
+	for i := 0; i < 3 && i < len(byHi); i++ {
+		s := byHi[i].Summary()
+		s["config"] = p.Cfg.ID
+		if byHi[i].Itv != nil {
+			s["headroom_used"] = fmt.Sprintf("largest limb bound %s of headroom %s", fmtBig(byHi[i].Itv.Hi), fmtBig(be.H[0]))
+		}
+		run.Sample(s)
 	}
 	sb.checkReach(roots)
 	sb.checkEncapsulation()
@@ -823,5 +832,17 @@ func (sb *stageB) checkEncapsulation() {
 	}
 	if bad == 0 {
 		ru.OK("encapsulation: no exported field embeds a field.Element")
+	}
+	// calls through interfaces and function values are not followed (their
+	// arguments are havocked to the by-type bounds): none of them may reach
+	// a function of the scope, whose writes would then go unnoticed unless
+	// it is an analysed entry point
+	dyn := dynamicScopeTargets(sb.p)
+	if len(dyn) == 0 {
+		ru.OK("no dynamic call inside the scope targets a function of the scope (VTA call graph)")
+		return
+	}
+	for _, d := range dyn {
+		ru.Fail("-", "stage B", "dynamic call inside the analysed scope that is not followed: "+d, nil)
 	}
 }
